@@ -393,7 +393,10 @@ pub fn run(a: &Args) -> i32 {
                 std::thread::sleep(Duration::from_millis(900));
                 w.get_ref().set_read_timeout(Some(Duration::from_millis(700))).ok();
                 let mut msgs = vec![];
-                loop { match w.read() { Ok(tungstenite::Message::Binary(b)) => msgs.push(b.to_vec()), Ok(_) => {}, Err(_) => break } }
+                loop { match w.read() { Ok(tungstenite::Message::Binary(b)) => msgs.push(b.to_vec()), Ok(_) => {},
+                    // a WebSocket protocol violation (an unfinished fragmented message followed by another message): what was sent is not a sequence of whole messages
+                    Err(tungstenite::Error::Protocol(_)) => { msgs.push(b"websocket protocol error".to_vec()); break }
+                    Err(_) => break } }
                 (vec![], msgs)
             } else {
                 std::thread::sleep(Duration::from_millis(900));
